@@ -191,6 +191,10 @@ func (s *dbStore) Load() LatestBlockState {
 		if state := loadStateAtHeight(s.db, head.Height()-1); state != nil {
 			return *state
 		}
+		// the first block of a chain that starts above height 1 sits on the genesis state
+		if state := loadStateAtHeight(s.db, 0); state != nil && state.InitialHeight == head.Height() {
+			return *state
+		}
 	}
 
 	return LatestBlockState{}
